@@ -508,6 +508,22 @@ let sw_case (line : string) : string =
       (if List.concat cks = List.concat ws then "ok" else "BAD")
   | _ -> failwith ("bad sw case: " ^ line)
 
+(* upload reader (C10): <id> <aborted 0|1> <chunk lengths|-> <read buffer lengths|->  ->  <id> <results|-> <ok|BAD> *)
+let sr_case (line : string) : string =
+  match split_ws line with
+  | [id; ab; cl; sizes] ->
+    let ints s = if s = "-" then [] else List.map int_of_string (String.split_on_char ',' s) in
+    let off = ref 0 in
+    let chunks = List.map (fun n -> let c = List.init n (fun i -> 97 + (!off + i) mod 26) in off := !off + n; c) (ints cl) in
+    let all = List.concat chunks in
+    let rs = sr_run false chunks (ab = "1") (List.map nat_of_int (ints sizes)) in
+    let got = List.concat (List.map (function SrData d -> d | _ -> []) rs) in
+    let rec is_prefix a b = match a, b with [], _ -> true | x :: a', y :: b' -> x = y && is_prefix a' b' | _ -> false in
+    Printf.sprintf "%s %s %s" id
+      (if rs = [] then "-" else String.concat "," (List.map (function SrData d -> "d" ^ string_of_int (List.length d) | SrEof -> "eof" | SrErr -> "err") rs))
+      (if is_prefix got all then "ok" else "BAD")
+  | _ -> failwith ("bad sr case: " ^ line)
+
 
 (* ---------- worker pool (C16) ---------- *)
 (* case line: <id> <var> <nw> <run> <lprogs> <sprogs> <sched>
@@ -635,6 +651,7 @@ let () =
     | "rw" -> rw_case
     | "rw-enum" -> rw_enum_case
     | "sw" -> sw_case
+    | "sr" -> sr_case
     | "pool" -> pool_case
     | "pool-enum" -> pool_enum_case
     | _ -> failwith ("unknown command " ^ cmd)
